@@ -73,7 +73,6 @@ class Option(Base):
     @line.setter
     def line(self, line: str) -> None:
         line = h.init_line(line)
-        self._line = line
 
         options: LStr = [s.strip() for s in line.split()]
         options = [s for s in options if s]
@@ -81,6 +80,7 @@ class Option(Base):
             if option[0] not in string.ascii_lowercase:
                 raise ValueError(f"invalid {option=}")
 
+        self._line = line
         self._flags = [s for s in options if s not in LOGS]
         self._logs = [s for s in options if s in LOGS]
 
